@@ -123,6 +123,9 @@ def make_session(rng, g, desc, tsdump=None):
         h, origin, views = nh, "json", [nh]
         late_ts = g.sb.n_ts + (2 if desc is not None else 0)   # the CAS loaded from JSON brings its own type system
     obs = [{"op": "cas.select_all", "h": v} for v in views]
+    # a typed query through EVERY view (also views without members): queries must not leave anything behind that a later
+    # serialisation shows
+    obs += [{"op": "cas.select", "h": v, "type": rng.choice(g.order + ["uima.tcas.Annotation"])} for v in views]
     for t in rng.sample(g.order, min(2, len(g.order))):
         obs.append({"op": "cas.select", "h": h, "type": t})
     labels = list(range(g.sb.n_fs)) if origin == "api" else []
